@@ -214,7 +214,8 @@ class C12(Sim):
         lo, hi = rng.choice([(0.0, 1.0), (-1.0, 1.0), (-5.0, 20.0), (0.0, 0.0), (-inf, inf), (-inf, 3.0), (2.0, inf)])
         d, _ = draw_value(rng, lo, hi, [40, 30, 12, 12, 1, 1, 2, 2])
         return {"min": fenc(lo), "max": fenc(hi), "lock_range": rng.random() < 0.5, "lock_previous": rng.random() < 0.6,
-                "default": fenc(d), "enabled": rng.random() < 0.93, "stub_buffer": rng.random() < 0.3}
+                "default": fenc(d), "enabled": rng.random() < 0.93, "stub_buffer": rng.random() < 0.3,
+                "debugging": rng.random() < 0.04}
 
     def gen_ops(self, rng, cfg: dict, n: int, faults: bool, maxrows: int = 5) -> list[dict]:
         lo, hi = fdec(cfg["min"]), fdec(cfg["max"])
@@ -299,6 +300,9 @@ class C12(Sim):
         dig = Digest()
         log = [] if keep_log else None
         m = Model(cfg)
+        if cfg.get("debugging"):
+            fl.settings.debugging = True  # the library's debug mode: reset_settings() switches it off before the next trace
+            st.hit("probes.library_debug_mode")
         stub = ScriptedDefuzzifier()
         if cfg.get("stub_buffer"):
             stub.buffer = np.full(8, np.nan)
@@ -452,7 +456,7 @@ class C12(Sim):
                             c["ops"][i]["vals"][j] = simple
                             yield c
         cfg = trace["config"]
-        for key, simple in (("lock_previous", False), ("lock_range", False), ("default", "nan"), ("min", 0.0), ("max", 1.0), ("stub_buffer", False)):
+        for key, simple in (("lock_previous", False), ("lock_range", False), ("default", "nan"), ("min", 0.0), ("max", 1.0), ("stub_buffer", False), ("debugging", False)):
             if cfg[key] != simple:
                 c = copy.deepcopy(trace)
                 c["config"][key] = simple
